@@ -20,6 +20,7 @@ regression theorems (model = spec on them, inputs kept in corpus/C08):
 import KinModel.Lemmas.C08
 import KinModel.ResponseReg
 import KinModel.Gen.RespConsts
+import KinModel.ResponseFlow
 namespace KinModel.Response
 
 /-! ### Selection of the response entry -/
@@ -713,6 +714,78 @@ theorem writeOnly_null_rejected_in_body :
     Excluded id {} i = false ∧ (validateResponse id genReg {} i).err = some .bodySchema ∧ acceptB id genReg {} i = false := by
   decide
 
+/-! ### The control flow of ValidateResponse / validateResponseHeader, tied to the source (table C08Flow) -/
+
+open KinModel.Gen in
+/-- every top-level statement of the two functions was recognised by the translator -/
+theorem c08flow_recognised :
+    (c08ValidateResponse ++ c08ValidateHeader).all (fun r => match r with | .unrecognised _ => false | _ => true) = true := by
+  decide
+
+/-- the regenerated statement table of `ValidateResponse` IS the program the model was transcribed from
+(statement groups, their order, the skip lists, the conditions of the empty-map shortcut, which option appends which
+validation option, VisitAsResponse on the header loop and on the body visit, the reasons) -/
+theorem c08flow_resp_is_expected : KinModel.Gen.c08ValidateResponse = expectedRespProgram := by decide
+
+/-- the regenerated statement table of `validateResponseHeader` IS the program `checkHeader` was transcribed from -/
+theorem c08flow_hdr_is_expected : KinModel.Gen.c08ValidateHeader = expectedHdrProgram := by decide
+
+/-- **`checkHeader` is the meaning of the source's statement table** of validateResponseHeader, for every header
+definition and every header set. -/
+theorem checkHeader_is_table_program (canon : String → String) (woOff : Bool) (hdrs : List (String × Option String)) (h : Hdr) :
+    runHdr canon true woOff hdrs h KinModel.Gen.c08ValidateHeader .start = checkHeader canon woOff hdrs h := by
+  rw [c08flow_hdr_is_expected]; exact runHdr_expected canon woOff hdrs h
+
+/-- dropping `VisitAsResponse()` from the header loop changes the verdict (the interpreter is sensitive to the row's
+parameter): a required write-only property absent from an object header -/
+example :
+    let s : Sch := .mk { ty := .object, required := ["pw"] } (.cons "pw" (.mk { ty := .string, writeOnly := true } .nil .none .none) .nil) .none .none
+    let h : Hdr := { name := "X-O", required := true, schema := some s }
+    runHdr id true false [("X-O", some "a,b")] h expectedHdrProgram .start = none ∧
+    runHdr id false false [("X-O", some "a,b")] h expectedHdrProgram .start = some (.hdrSchema "X-O") := by decide
+
+
+/-- **`validateResponse` is the meaning of the source's statement table** of ValidateResponse (with the header program
+of validateResponseHeader), for every response map, status, header set, body and option combination: the hand-written
+model is no longer a free transcription — it equals the interpretation of the regenerated table. -/
+theorem validateResponse_is_table_program (canon : String → String) (reg : List (String × String)) (o : Opts) (i : Input) :
+    runResp canon reg o i KinModel.Gen.c08ValidateHeader KinModel.Gen.c08ValidateResponse { bodyAfter := some i.body }
+      = validateResponse canon reg o i := by
+  rw [c08flow_hdr_is_expected, c08flow_resp_is_expected]; exact runResp_expected canon reg o i
+
+/-- the interpreter is sensitive to the order of the statements: with the ExcludeResponseBody exit moved before the
+header loop, a missing required header would pass under that option -/
+example :
+    let i : Input := { method := "GET", status := 200, responses := [("200", ⟨[{ name := "X-R", required := true, schema := none }], [], true⟩)],
+                       hdrs := [], body := "", readFails := false, bodyDec := .err }
+    let o : Opts := { excludeBody := true }
+    (runResp id genReg o i expectedHdrProgram expectedRespProgram { bodyAfter := some i.body }).err = some (.hdrMissing "X-R") ∧
+    (runResp id genReg o i expectedHdrProgram
+      [.lookupStatus, .fallbackDefault, .undefinedStatus "", .unresolvedFails "", .sortedHeaderNames, .excludeBodyOk, .headerLoop true, .retNil]
+      { bodyAfter := some i.body }).err = none := by decide
+
+/-! ### Histories: the same ResponseValidationInput validated again -/
+
+/-- the input as the next call of ValidateResponse on the same object sees it: the bytes now readable from input.Body -/
+def afterCall (i : Input) (out : Out) : Option Input := out.bodyAfter.map (fun b => { i with body := b })
+
+/-- the outcomes of `n` successive calls on one input object (the sequence ends when input.Body is left nil) -/
+def validateTimes (canon : String → String) (reg : List (String × String)) (o : Opts) : Nat → Input → List Out
+  | 0, _ => []
+  | n + 1, i =>
+    let out := validateResponse canon reg o i
+    out :: (match afterCall i out with | some i' => validateTimes canon reg o n i' | none => [])
+
+/-- **Re-validation.** When the body reader does not fail, any number of successive calls on the same input object give
+the same outcome each time (verdict, error class, and the body still readable). -/
+theorem validate_history (canon : String → String) (reg : List (String × String)) (o : Opts) (i : Input)
+    (h : i.readFails = false) (n : Nat) :
+    validateTimes canon reg o n i = List.replicate n (validateResponse canon reg o i) := by
+  induction n with
+  | zero => rfl
+  | succ n ih =>
+    simp only [validateTimes, afterCall, body_readable_after canon reg o i h, Option.map_some, ih, List.replicate_succ]
+
 /-! ### Non-vacuity: inputs outside every exclusion class on which both directions are exercised -/
 
 def exResp : Resp :=
@@ -735,5 +808,10 @@ example : ¬ Accept id genReg {} (exIn 201 (.obj (.cons "pw" (.str "x") .nil))) 
   fun h => by have := (accept_iff_partial id genReg {} _ (by decide)).mpr h; revert this; decide
 example : (validateResponse id genReg {} (exIn 404 .null)).err = none := by decide
 example : classKey 201 = some "2XX" ∧ classKey 99 = none ∧ classKey 600 = none ∧ classKey 599 = some "5XX" := by decide
+
+/-- not vacuous, and the read failure is a real boundary: after a failed read input.Body is nil and the history ends -/
+example : validateTimes id genReg {} 3 (exIn 201 (.obj (.cons "pw" (.str "x") .nil)))
+    = List.replicate 3 ⟨some .bodySchema, some "…"⟩ := by decide
+example : validateTimes id genReg {} 3 { exIn 201 .null with readFails := true } = [⟨some .bodyRead, none⟩] := by decide
 
 end KinModel.Response
